@@ -6,14 +6,16 @@ from sa.dataflow import Poly, cmp_key
 from sa.resolve import walk_function
 
 EXPLANATION = (
-    "Decides necessary structural clauses of C18, far from sufficient for the contents served: (S1) Transmitter.add_prices emits, for every non-missing price, a "
-    "quote with ask - bid = price x spread and (ask + bid) / 2 = price, stamped with the row's time and the column's contract; _make_transmitter adds each price "
-    "column with the configured spread and the rate frame with none; (S2) the feature table handed to the transmitter is the very table published as self.X (same "
-    "definition, no statement in between), likewise Y; observation events are built from every row of X; (S3) _make_timesteps derives the steps from Y's index, minus "
-    "the exchange calendar's holidays, skipping the first `window` dates; (S4) State declares shape (window or ceil(window/stride), n), keeps a deque(maxlen=window) that "
-    "is pre-filled to capacity on the first event, and parse concatenates it and thins it from the most recent row backwards ([::-stride][::-1]); (S5) transform, then "
-    "forward fill, then zero fill, then a symmetric clip(-clip, +clip); the observation bound is the constant 5; (S6) warm-up horizon 3 + 2 x window days unless "
-    "window == 1 (markov reset); the action space, fee schedule and rate contract are built from the given arguments."
+    "Decides necessary structural clauses of C18, far from sufficient for the contents served: (S1) Transmitter.add_prices emits, for every price of every column with only the "
+    "missing ones (NaN) dropped, a quote with ask - bid = price x spread and (ask + bid) / 2 = price, stamped with the row's time and the column's contract; _make_transmitter adds "
+    "each price column with the configured spread and the rate frame with none; (S2) the table published as self.X is, by value id, the very table handed to the transmitter "
+    "(likewise Y; pandas in-place calls count as redefinitions); observation events are built from every row of X; (S3) _make_timesteps derives the steps from Y's index on the "
+    "common valid range, minus the exchange calendar's holidays, skipping the first `window` dates; (S4) State declares shape (window or ceil(window/stride), n), keeps a "
+    "deque(maxlen=window) that is pre-filled to capacity on the first event, and parse concatenates it and thins it from the most recent row backwards; (S5/S6) the data path of "
+    "TradingEnvXY.__init__ equals, value id by value id, a reference implementation kept with the rule: start / end clamped to the price table, re-index on the union of dates, "
+    "transform up to `end`, forward fill, zero fill, symmetric clip, warm-up trimming to window - 1 rows, Y and the rate restricted to [start, end], and every argument of the parent "
+    "constructor (action space, State(n, window, stride, max_=5), reward, transmitter, fee schedule ...); Transmitter(timesteps, folds, markov reset iff window == 1, warm-up 3 + 2 x "
+    "window days); the history / per-step batches handed out are the filed events in time order (C04 clauses)."
 )
 DECIDED = ["S1 quotes are the given prices widened by the spread", "S2 the served feature table is the published one", "S3 steps only on non-holiday price dates after a full window",
            "S4 declared shape = served shape", "S5 forward-fill only, symmetric clip", "S6 warm-up horizon covers the window / configuration plumbing"]
